@@ -63,14 +63,15 @@ def t_const_vector(c, perm, flips):
     return out
 
 
-def case_equivariance(cfg, g_index, seed):
+def case_equivariance(cfg, g_index, seed, steps=1):
     c = simcfg.normalise(cfg)
     kind = c["kind"]
     d = simcfg.dim_of(kind)
     perm, flips = group(d)[g_index]
     real_t = np.dtype(c["dtype"]).type
     eps = float(np.finfo(real_t).eps)
-    margin = simcfg.step_reach(c) + c["width"] + 1
+    c = {k: v for k, v in c.items()}
+    margin = simcfg.step_reach(c) * steps + c["width"] + 1
     base = 2 * margin + 3
     shape = tuple(base + i for i in range(d))
     c["shape"] = shape
@@ -105,15 +106,16 @@ def case_equivariance(cfg, g_index, seed):
     kw1 = {"free_stream_velocity": fs} if c["stream"] else {}
     kw2 = {"free_stream_velocity": t_const_vector(fs, perm, flips)} if c["stream"] else {}
     w_in = np.abs(p1.astype(np.float64)).max()
-    sim1.time_step(dt=dt, **kw1)
-    sim2.time_step(dt=dt, **kw2)
+    for _ in range(steps):  # the second step starts from a used simulator (scratch buffers, FFT buffers dirty)
+        sim1.time_step(dt=dt, **kw1)
+        sim2.time_step(dt=dt, **kw2)
     fails = []
     if p1.ndim == d:
         want = t_scalar(p1, perm, flips) * (det(perm, flips) if (is_ns and d == 2) else 1)
     else:
         want = t_vector(p1, perm, flips, pseudo=is_ns)
     umax = float(np.abs(sim1.velocity_field).max()) + 1.0
-    scale = w_in * (1 + 8 * dt * 3 / dx + 16 * c["params"][1] * dt / dx**2)
+    scale = w_in * (1 + 8 * dt * 3 / dx + 16 * c["params"][1] * dt / dx**2) * steps
     if is_ns and c["forcing"]:
         scale = scale + float(np.abs(simcfg.forcing_pattern("generic", d, shape, margin, seed)).max()) * dt / dx
     tol = 256 * eps * (scale + 1e-300)
@@ -156,6 +158,10 @@ def run(r) -> None:
                 cfg = {"kind": kind, **{k: v for k, v in pt.items()}}
                 for gi in gs:
                     cases.append(dict(cfg=cfg, g_index=gi, seed=r.seed))
+        # two consecutive steps (the second on used simulator objects) for every group element, default configuration
+        for gi in range(ng):
+            for dt_ in ("float64", "float32"):
+                cases.append(dict(cfg={"kind": kind, "dtype": dt_, **({"forcing": True, "stream": True} if simcfg.is_ns(kind) else {})}, g_index=gi, seed=r.seed, steps=2))
     seen = set()
     uniq = []
     for c in cases:
